@@ -248,6 +248,30 @@ def run(run, thorough):
     by_id = {id(s): p for s, p in items}
     for scn, res in out:
         judge(run, scn, by_id[id(scn)], res)
+    # directed: a trashed symbolic link to a directory that still exists is an entry like any other - trash-rm / trash-empty remove it
+    # (the link, not what it points to), and it is listed until then
+    import itertools
+    dirs = []
+    for purge, tk in itertools.product((('rm', 'lnk_d'), ('rm', '*'), ('empty', None), ('empty', 0)), ('/canary/dir', '../../canary/dir')):
+        t1, t2, t3 = datetime.datetime(2024, 1, 1, 0, 0, 5), datetime.datetime(2024, 1, 1, 0, 0, 9), datetime.datetime(2024, 1, 2, 0, 0, 0)
+        tree = scen.canary() + [['d', '/home/u', 0o755], ['l', '/home/u/lnk_d', tk], ['f', '/home/u/f', 'f']]
+        steps = [{'cmd': 'list', 'argv': []},
+                 {'cmd': 'put', 'argv': ['--', '/home/u/lnk_d'], 'now': [2024, 1, 1, 0, 0, 5, 0]}, {'cmd': 'list', 'argv': []},
+                 {'cmd': 'put', 'argv': ['--', '/home/u/f'], 'now': [2024, 1, 1, 0, 0, 9, 0]}, {'cmd': 'list', 'argv': []}]
+        plan = [('init', []), ('put', '/home/u/lnk_d', t1), ('list',), ('put', '/home/u/f', t2), ('list',)]
+        if purge[0] == 'rm':
+            steps.append({'cmd': 'rm', 'argv': [purge[1]]})
+            plan.append(('rm', purge[1]))
+        else:
+            steps.append({'cmd': 'empty', 'argv': ([str(purge[1])] if purge[1] is not None else []) + ['-f'], 'env': {'TRASH_DATE': t3.strftime(FMT)}})
+            plan.append(('empty', purge[1], t3, None))
+        steps.append({'cmd': 'list', 'argv': []})
+        plan.append(('list',))
+        dirs.append(({'tree': tree, 'mounts': [], 'cwd': '/', 'uid': 1000, 'env': {'HOME': '/home/u', 'TRASH_VOLUMES': '/'}, 'steps': steps}, plan))
+    outd = engine.run_all(run, 'history-link-to-dir', [s for s, p in dirs])
+    byd = {id(s): p for s, p in dirs}
+    for scn, res in outd:
+        judge(run, scn, byd[id(scn)], res, section='history-link-to-dir')
     concurrent_puts(run, thorough)
     if items:
         run.sample({'level': 'history', 'commands': [[s['cmd'], s['argv']] for s in scns[0]['steps'] if s['cmd'] != 'list'][:8], 'mounts': scns[0]['mounts']})
